@@ -861,6 +861,26 @@ add("C18", "constructor normalises qualifiers without is_table", SCHEMA,
     "            normalized_keys = [self._normalize_name(key, is_table=True) for key in keys]",
     "            *qualifiers, table_name = keys\n            normalized_keys = [self._normalize_name(key) for key in qualifiers]\n            normalized_keys.append(self._normalize_name(table_name, is_table=True))", "C18.e")
 
+add("C18", "ambiguous partial name resolves to the first candidate when the failure-only flag is off", "sqlglot/schema.py",
+    "            if len(possibilities) == 1:\n                parts.extend(possibilities[0])\n            else:\n                if raise_on_missing:\n                    joined_parts = \".\".join(parts)\n                    message = \", \".join(\".\".join(p) for p in possibilities)\n                    raise SchemaError(f\"Ambiguous mapping for {joined_parts}: {message}.\")\n\n                return None\n",
+    "            if len(possibilities) > 1 and raise_on_missing:\n                joined_parts = \".\".join(parts)\n                message = \", \".join(\".\".join(p) for p in possibilities)\n                raise SchemaError(f\"Ambiguous mapping for {joined_parts}: {message}.\")\n\n            parts.extend(possibilities[0])\n",
+    "C18.f")
+add("C18", "nested_get answers an empty mapping instead of None when the failure-only flag is off", "sqlglot/schema.py",
+    "                raise ValueError(f\"Unknown {name}: {key}\")\n            return None\n",
+    "                raise ValueError(f\"Unknown {name}: {key}\")\n            return {}\n", "C18.f")
+add("C18", "has_column reduces the column to its bare name before normalising", "sqlglot/schema.py",
+    "        normalized_column_name = self._normalize_name(\n            column if isinstance(column, str) else column.this, dialect=dialect, normalize=normalize\n        )\n\n        table_schema: dict[str, object] | None = self.find(normalized_table, raise_on_missing=False)\n        return normalized_column_name in table_schema",
+    "        name = column if isinstance(column, str) else column.name\n        normalized_column_name = self._normalize_name(name, dialect=dialect, normalize=normalize)\n\n        table_schema: dict[str, object] | None = self.find(normalized_table, raise_on_missing=False)\n        return normalized_column_name in table_schema",
+    "C18.g")
+add("C18", "benign: has_column keeps the identifier in a local before normalising", "sqlglot/schema.py",
+    "        normalized_column_name = self._normalize_name(\n            column if isinstance(column, str) else column.this, dialect=dialect, normalize=normalize\n        )\n\n        table_schema: dict[str, object] | None = self.find(normalized_table, raise_on_missing=False)\n        return normalized_column_name in table_schema",
+    "        ident = column if isinstance(column, str) else column.this\n        normalized_column_name = self._normalize_name(ident, dialect=dialect, normalize=normalize)\n\n        table_schema: dict[str, object] | None = self.find(normalized_table, raise_on_missing=False)\n        return normalized_column_name in table_schema",
+    "silent")
+add("C18", "benign: the None answer of an ambiguous lookup moved into an else branch", "sqlglot/schema.py",
+    "                    raise SchemaError(f\"Ambiguous mapping for {joined_parts}: {message}.\")\n\n                return None\n",
+    "                    raise SchemaError(f\"Ambiguous mapping for {joined_parts}: {message}.\")\n                else:\n                    return None\n",
+    "silent")
+
 add("C19", "distiller handed out by a memoised factory", DIFF,
     "        edit_script = ChangeDistiller(**kwargs).diff(", "        edit_script = _distiller(**kwargs).diff(", "C19.h",
     extra=[(DIFF, "\nclass ChangeDistiller:", "\nimport functools\n\n\n@functools.lru_cache(maxsize=None)\ndef _distiller(**kwargs):\n    return ChangeDistiller(**kwargs)\n\n\nclass ChangeDistiller:")])
